@@ -2,6 +2,7 @@ package node
 
 import (
 	"fmt"
+	"unicode/utf8"
 
 	"github.com/freeconf/yang/meta"
 	"github.com/freeconf/yang/val"
@@ -80,8 +81,8 @@ func (fieldConstraints) patternCheck(s string, patterns []*meta.Pattern) error {
 }
 
 func (fieldConstraints) lenCheck(s string, lengths []*meta.Range) error {
-	// like range, every length of the typedef chain applies
-	n := val.Int32(len(s))
+	// length is in characters and like range, every length of the typedef chain applies
+	n := val.Int32(utf8.RuneCountInString(s))
 	for _, length := range lengths {
 		if err := length.CheckValue(n); err != nil {
 			return fmt.Errorf("string length outside allowed range %s. %s", length, s)
